@@ -92,9 +92,9 @@ theorem inv_replyHeaders {O : Nat → Resp} {s : State} (h : Inv O s) (e : Nat) 
       split
       · exact inv_frame f1 h
       · rename_i ent1 he1
-        have f2 : Frame s1 (applyReuse s1 e (if ent1.relReq = true then Reuse.doNotCacheButShare else (O e).hdr.reuse)) :=
+        have f2 : Frame s1 (applyReuse s1 e (reuseAnswer s.relFirst ent1.relReq (O e).hdr.reuse)) :=
           frame_applyReuse s1 e _
-        generalize applyReuse s1 e (if ent1.relReq = true then Reuse.doNotCacheButShare else (O e).hdr.reuse) = s2 at f2 ⊢
+        generalize applyReuse s1 e (reuseAnswer s.relFirst ent1.relReq (O e).hdr.reuse) = s2 at f2 ⊢
         have hI2 : Inv O s2 := inv_frame (f1.trans f2) h
         split
         · exact hI2
@@ -510,7 +510,7 @@ theorem inv_purge {O : Nat → Resp} {s : State} (h : Inv O s) : Inv O (purge s)
   · exact h
   · exact inv_frame (frame_release s _ true) h
 
-theorem inv_init (O : Nat → Resp) (cf : Bool) : Inv O (State.init cf) := by
+theorem inv_init (O : Nat → Resp) (cf rf : Bool) : Inv O (State.init cf rf) := by
   constructor
   · intro e _; rfl
   · intro e ent he; cases he
